@@ -254,6 +254,10 @@ func (p *Proxy) handleRawMessage(rawMessage *RawMessage) (*Message, error) {
 		}
 		zap.L().Info("receive a message from tcp", zap.String("host", host), zap.Int("port", port))
 		if err == nil {
+			// bind the connection under the address sendMessage looks the transport up with
+			if ip, err := p.resolver.GetIp(host); err == nil {
+				host = ip
+			}
 			transId, err := msg.GetClientTransaction()
 			if err == nil {
 				trans, err := p.clientTransMgr.GetTransport("tcp", host, port, p.localAddress, transId)
@@ -648,7 +652,7 @@ func (p *Proxy) sendMessage(host string, port int, transport string, msg *Messag
 	t, err := p.findClientTransport(ip, port, transport, transId)
 	if err == nil {
 		if msg.IsFinalResponse() {
-			p.clientTransMgr.RemoveTransport(transport, host, port, transId)
+			p.clientTransMgr.RemoveTransport(transport, ip, port, transId)
 		}
 		t.Send(msg)
 	} else {
